@@ -1,7 +1,7 @@
 (* C10 property theorems.  Statements + exact + Print Assumptions only. *)
 From Coq Require Import Permutation.
 From ZV.Common Require Import Base.
-From ZV.C10 Require Import Model Spec ProofsPow2 ProofsRing ProofsHist ProofsVec ProofsValVec.
+From ZV.C10 Require Import Model Spec ProofsPow2 ProofsRing ProofsHist ProofsVec ProofsValVec ProofsFixed.
 Open Scope N_scope.
 
 (* ensure_power_of_two (bit smearing) returns a power of two that is large enough, for every request up to 2^62 *)
@@ -163,3 +163,37 @@ Check valvec32_push_capacity :
   | Some c => len < c /\ cap <= c /\ c <= MAX_CAPACITY
   end.
 Print Assumptions valvec32_push_capacity.
+
+(* FixedCircularQueue<T, n>: every history of push_back/pop_front/clear/front/back behaves like a deque bounded
+   by n (push on a full queue returns Err and destroys only the refused value), never touches an
+   uninitialised slot, and ends holding the bounded deque's sequence *)
+Theorem fixed_refines_bounded_deque :
+  forall (A : Type) n (ops : list (qop A)), 0 < n ->
+  exists q', fixed_run A n fixed_new ops = Ok (q', snd (bdeque_run A n [] ops)) /\
+             F A n q' (fst (bdeque_run A n [] ops)).
+Proof. exact ProofsFixed.fixed_refines_bounded_deque_proof. Qed.
+Check fixed_refines_bounded_deque :
+  forall (A : Type) n (ops : list (qop A)), 0 < n ->
+  exists q', fixed_run A n fixed_new ops = Ok (q', snd (bdeque_run A n [] ops)) /\
+             F A n q' (fst (bdeque_run A n [] ops)).
+Print Assumptions fixed_refines_bounded_deque.
+
+(* fixed_refuses_when_full *)
+Theorem fixed_refuses_when_full :
+  forall (A : Type) n q (l : list A) x, 0 < n -> F A n q l -> N.of_nat (length l) = n ->
+  fixed_step A n q (PushBack x) = Ok (q, (RErr, [x])).
+Proof. exact ProofsFixed.fixed_refuses_when_full_proof. Qed.
+Check fixed_refuses_when_full :
+  forall (A : Type) n q (l : list A) x, 0 < n -> F A n q l -> N.of_nat (length l) = n ->
+  fixed_step A n q (PushBack x) = Ok (q, (RErr, [x])).
+Print Assumptions fixed_refuses_when_full.
+
+(* clear()/Drop of the fixed queue destroys exactly the held sequence and leaves no initialised slot *)
+Theorem fixed_clear_drops_each_once :
+  forall (A : Type) n, 0 < n -> forall q (l : list A), F A n q l ->
+  exists q', fixed_clear A n q = Ok (q', l) /\ F A n q' [] /\ forall j, fbuf q' j = None.
+Proof. exact ProofsFixed.F_clear. Qed.
+Check fixed_clear_drops_each_once :
+  forall (A : Type) n, 0 < n -> forall q (l : list A), F A n q l ->
+  exists q', fixed_clear A n q = Ok (q', l) /\ F A n q' [] /\ forall j, fbuf q' j = None.
+Print Assumptions fixed_clear_drops_each_once.
